@@ -55,6 +55,12 @@ pub trait MRBIterator: PrivateMRBIterator<Self::Item> {
         self._index()
     }
 
+    /// Verification hook: the availability remembered from the last look at the successor (read-only).
+    #[cfg(feature = "verif-hooks")]
+    fn verif_cached_avail(&self) -> usize {
+        self.cached_avail()
+    }
+
     /// Returns the length of the buffer.
     #[inline]
     fn buf_len(&self) -> usize {
